@@ -671,6 +671,16 @@ class Interp:
         if k == 'InitListExpr':
             # aggregate initialisation of a plain struct: one initialiser per field, in declaration order; a reference field is bound
             tq = (e.get('t') or '').replace('const ', '').replace('struct ', '').strip()
+            import re as _re
+            ma_ = _re.search(r'\[(\d+)\]$', tq)
+            if ma_ and int(ma_.group(1)) <= 64 and self.fx.raw['records'].get(tq[:ma_.start()].strip()) is None:
+                # brace initialisation of a fixed-size array of scalars: the listed values, then zeros
+                n_ = int(ma_.group(1))
+                vals_ = [self.rv(V(ci)) for ci in c][:n_]
+                vec_ = Vec(vals_ + [0] * (n_ - len(vals_)))
+                vec_.u8 = bool(_re.match(r'(graphite2::)?(byte|uint8|unsigned char|gr_uint8)\b', tq))
+                val[i] = It(vec_, 0)
+                return
             rc = self.fx.raw['records'].get(tq)
             if rc is None or len(rc['fields']) != len(c):
                 self.broken(fn, e, 'aggregate initialisation of %s' % tq)
